@@ -10,6 +10,8 @@ var ByteSymbols = []string{
 	"\u3042", "\u0141", "\u4e30", "\u015f",
 	// characters that Unicode (but not JMESPath) counts as white space
 	"\v", "\f", "\u0085", "\u00a0", "\u2028", "\u3000",
+	// byte order mark, the replacement character written literally, a printf verb introducer
+	"\ufeff", "\ufffd", "%",
 }
 
 // PumpUnits are the u / w parts of the pumping family u^k v w^k.
